@@ -273,4 +273,59 @@ theorem C02_fallback_dead (O : Oracle) (t : Ty) (v : Val) (e : Err)
     have := isValidString_isOk O (origOf v) t _ hv
     rw [h] at this; simp at this
 
+
+/-! ### arguments that have a default
+
+`adapt_typehints` returns early when `type(val) in {str, bool, int, float} and val == default` (Python `==`, so
+`True == 1 == 1.0`).  The default is only passed by the retry of `_check_type`, which only happens for a value that
+is a `str`: `checkTypeD O t (some d) v` is `_check_type` of an argument with default `d`. -/
+
+/-- without a default nothing changes -/
+theorem C02_default_none (O : Oracle) (t : Ty) (v : Val) : checkTypeD O t .none v = checkType O t v :=
+  checkTypeD_none O t v
+
+/-- the early return can only hand back a STRING that is the default itself: every other result comes from the
+    adapter (so a `bool` / `float` that merely equals an `int` default is never let through) -/
+theorem C02_default_result (O : Oracle) (t : Ty) (d v w : Val) (h : checkTypeD O t (some d) v = .ok w) :
+    (∃ orig val, adapt O false orig t val = .ok w) ∨ (∃ s, v = .str s ∧ w = .str s ∧ d = .str s) :=
+  checkTypeD_result O t d v w h
+
+/-- **C02_sound_with_default**: when the default conforms, every accepted value conforms (relaxed validator, no
+    further hypothesis; strict validator under the two hypotheses of `C02_sound_partial`) -/
+theorem C02_sound_with_default (O : Oracle) (t : Ty) (d v w : Val) (hd : confL true true t d = true)
+    (h : checkTypeD O t (some d) v = .ok w) : confL true true t w = true :=
+  checkTypeD_sound O true true t d v w (by simp) (by simp) hd h
+
+theorem C02_sound_with_default_partial (O : Oracle) (t : Ty) (d v w : Val)
+    (hl : litStrOnly t = true) (hk : strKeys (parseValueOrConfig O v) = true) (hd : Conforms t d)
+    (h : checkTypeD O t (some d) v = .ok w) : Conforms t w :=
+  checkTypeD_sound O false false t d v w (fun _ => hl) (fun _ => hk) hd h
+
+/-- where it fails: a string SENTINEL default that does not conform is returned for the equal text
+    (`type=int, default='auto'`, `--k=auto`; finding C02-string-sentinel-default) -/
+theorem C02_sound_with_default_fails_sentinel :
+    checkTypeD O0 .int (some (.str "auto")) (.str "auto") = .ok (.str "auto") ∧ conf .int (.str "auto") = false := by
+  exact ⟨rfl, rfl⟩
+
+/-- the kind confusion of `==` is not reachable through `_check_type`: `type=int, default=1` refuses `True` and `1.0` -/
+theorem C02_default_no_kind_confusion :
+    checkTypeD O0 .int (some (.int 1)) (.bool true) = .error .type ∧
+    checkTypeD O0 .int (some (.int 1)) (.flt "1.0") = .error .type ∧
+    checkTypeD O0 (.union [.int, .list .int]) (some (.int 1)) (.bool true) = .error .type := by
+  exact ⟨rfl, rfl, rfl⟩
+
+/-- the early return itself, whoever calls it with a default (`serialize` does): it is sound when the default
+    conforms and a value equal to the default is of the default's own kind (`noKindConfusion`) … -/
+theorem C02_sound_early_return (O : Oracle) (t : Ty) (orig : Option String) (d v w : Val)
+    (hd : confL true true t d = true) (hn : isSBIF v = true → pyEq v d = true → noKindConfusion v d = true)
+    (h : adaptD O false orig (some d) t v = .ok w) : confL true true t w = true :=
+  adaptD_sound O true true t orig d v w (by simp) (by simp) hd hn h
+
+/-- … and not otherwise: called directly with default `1`, it returns `True` for an `int` -/
+theorem C02_early_return_kind_confusion :
+    adaptD O0 false .none (some (.int 1)) .int (.bool true) = .ok (.bool true) ∧ conf .int (.bool true) = false := by
+  exact ⟨rfl, rfl⟩
+
+example : noKindConfusion (.int 1) (.int 1) = true ∧ noKindConfusion (.bool true) (.int 1) = false := ⟨rfl, rfl⟩
+
 end Jap.Props.C02
